@@ -426,7 +426,7 @@ def digest_auth(realm, get_ha1, key, debug=False, accept_charset='utf-8'):
         respond_401()
 
     msg = 'The Authorization header could not be parsed.'
-    with cherrypy.HTTPError.handle(ValueError, 400, msg):
+    with cherrypy.HTTPError.handle((ValueError, IndexError), 400, msg):
         auth = HttpDigestAuthorization(
             auth_header, request.method,
             debug=debug, accept_charset=accept_charset,
